@@ -196,6 +196,9 @@ def cases(tier, seed):
                     cs.append(case(p, n1, B, True, 0))
                 cs.append(case(p, 2, B, False, 1))
                 cs.append(case(p, 2, B, True, 2))
+            if p in (None, 0, 6, 12):
+                cs.append(case(p, 6, 1, True, 0))
+                cs.append(case(p, 2, 3, True, 1))
     return cs
 
 
